@@ -25,3 +25,10 @@ Record body_arm := mk_body_arm {
   ba_methods : option (list (list N)); (* None = `_`; Some [..] = "POST" | "PUT" *)
   ba_guard : body_guard;
   ba_result : body_result }.
+
+(* HttpConn (src/http_conn.rs): the leading state guards of a method, in source order.
+   A guard is `match self.<field> { Variant => {} | Variant => return Err(HttpError::X), ... }`. *)
+Inductive state_field := FWriteState | FReadState.
+Inductive state_variant := VNone | VResponse | VShutdown | VHead | VBody.
+(* (field, arms): an arm maps a variant to the name of the error returned, or None for `=> {}` *)
+Definition guard_table := (state_field * list (state_variant * option (list N)))%type.
